@@ -7,6 +7,7 @@ import (
 	"go/constant"
 	"go/token"
 	"go/types"
+	"sort"
 	"strings"
 
 	"golang.org/x/tools/go/ssa"
@@ -4124,4 +4125,374 @@ func c14AccountingOrigins(c *Ctx) {
 		}
 	}
 	c.Floor(R, "stores to the packets' recorded length", nw, 3)
+}
+
+// C17.16: a Write that was blocked and is woken up does not buffer its data when the stream was shut down or reset
+// in the meantime: in SendStream.write, every path from the wait on writeChan to a store into nextFrame (or a copy
+// into its Data) passes the shutdownErr == nil and the resetErr == nil edge. closeForShutdown / CancelWrite
+// discard nextFrame before they wake the writer, so without the re-check the woken Write finds room, "writes"
+// its data into a frame nobody will send and reports success.
+func c17WokenWriteRechecksTermination(c *Ctx) {
+	const R = "C17.16"
+	f := c.fn("", "SendStream", "write")
+	wc := c.fld("", "SendStream", "writeChan")
+	nf := c.fld("", "SendStream", "nextFrame")
+	data := c.fld("internal/wire", "StreamFrame", "Data")
+	she := c.fld("", "SendStream", "shutdownErr")
+	rse := c.fld("", "SendStream", "resetErr")
+	waits := func(in ssa.Instruction) bool {
+		switch x := in.(type) {
+		case *ssa.Select:
+			for _, st := range x.States {
+				if st.Dir == types.RecvOnly && loadsPath(st.Chan, wc) {
+					return true
+				}
+			}
+		case *ssa.UnOp:
+			return x.Op == token.ARROW && loadsPath(x.X, wc)
+		}
+		return false
+	}
+	buffers := func(in ssa.Instruction) bool {
+		switch x := in.(type) {
+		case *ssa.Store:
+			fa, ok := x.Addr.(*ssa.FieldAddr)
+			if !ok {
+				return false
+			}
+			if fieldOfAddr(fa) == nf.Origin() {
+				return !IsNil()(x.Val)
+			}
+			return fieldOfAddr(fa) == data.Origin() && loadsPath(fa.X, nf)
+		case *ssa.Call:
+			return builtinName(&x.Call) == "copy" && len(x.Call.Args) == 2 && derivesFromField(x.Call.Args[0], nf)
+		}
+		return false
+	}
+	c.Floor(R, "waits on writeChan in SendStream.write", countInstr(f, waits), 1)
+	c.Floor(R, "places where SendStream.write buffers data in nextFrame", countInstr(f, buffers), 2)
+	for _, g := range []struct {
+		n string
+		f *types.Var
+	}{{"shutdownErr", she}, {"resetErr", rse}} {
+		c.cut(R, "recheck:a woken Write buffers nothing unless "+g.n+" is still nil", &Cut{Fn: f, Start: waits, Target: buffers, NoInline: true,
+			Edge: EdgeRel(Rel{Op: token.EQL, X: Load(g.f), Y: IsNil()}, false)},
+			"a Write blocked behind a buffered frame returns (len(p), nil) after the connection was closed or the stream reset, and the data is silently dropped")
+	}
+}
+
+// derivesFromField: v is (a slice of) the value loaded from a path through field f.
+func derivesFromField(v ssa.Value, f *types.Var) bool {
+	for d := 0; d < 6; d++ {
+		switch x := v.(type) {
+		case *ssa.Slice:
+			v = x.X
+			continue
+		case *ssa.UnOp:
+			if x.Op == token.MUL {
+				if fa, ok := x.X.(*ssa.FieldAddr); ok {
+					if fieldOfAddr(fa) == f.Origin() || loadsPath(fa.X, f) {
+						return true
+					}
+				}
+			}
+			return false
+		}
+		return false
+	}
+	return false
+}
+
+// C09.16: the flight builders emit no CRYPTO frame for a range that resolves to nothing. Both users of
+// QUICCryptoRange.resolve agree (sibling cross-check: the random builder skips `end <= start`): every path from the
+// resolve call to the place where a frame is produced for [start,end) passes a comparison of the two results on the
+// edge that excludes start == end. A trailing empty CRYPTO frame makes validateInitialFlight refuse a plan that
+// covers the whole ClientHello (the frame reader reports EOF for it).
+func c09NoEmptyCryptoFrame(c *Ctx) {
+	const R = "C09.16"
+	res := c.obj("", "QUICCryptoRange", "resolve")
+	split := c.fn("", "", "splitRange")
+	n := 0
+	for _, cs := range c.P.CallSites(res) {
+		cl, ok := cs.Instr.(*ssa.Call)
+		if !ok || cs.Kind != "call" {
+			continue
+		}
+		n++
+		f := cs.Fn
+		isExtract := func(v ssa.Value, k int) bool {
+			ex, ok := stripConv(v).(*ssa.Extract)
+			return ok && ex.Tuple == ssa.Value(cl) && ex.Index == k
+		}
+		produces := func(in ssa.Instruction) bool {
+			x, ok := in.(*ssa.Call)
+			if !ok {
+				return false
+			}
+			if split != nil && x.Call.StaticCallee() == split {
+				return true
+			}
+			// append(payload, 0x06): the CRYPTO frame type byte
+			if builtinName(&x.Call) == "append" && len(x.Call.Args) == 2 {
+				if sl, ok := x.Call.Args[1].(*ssa.Slice); ok {
+					if al, ok := sl.X.(*ssa.Alloc); ok && al.Referrers() != nil {
+						for _, r := range *al.Referrers() {
+							if ia, ok := r.(*ssa.IndexAddr); ok && ia.Referrers() != nil {
+								for _, r2 := range *ia.Referrers() {
+									if st, ok := r2.(*ssa.Store); ok && ConstI(6)(st.Val) {
+										return true
+									}
+								}
+							}
+						}
+					}
+				}
+			}
+			return false
+		}
+		nonEmptyEdge := func(ifi *ssa.If, s int) bool {
+			b, ok := ifi.Cond.(*ssa.BinOp)
+			if !ok || !isCmp(b.Op) {
+				return false
+			}
+			op := b.Op
+			switch {
+			case isExtract(b.X, 0) && isExtract(b.Y, 1): // start op end
+			case isExtract(b.X, 1) && isExtract(b.Y, 0): // end op start
+				op = swapOp(op)
+			default:
+				return false
+			}
+			if s == 1 {
+				op = negOp(op)
+			}
+			// start op end must exclude equality
+			return op == token.LSS || op == token.NEQ || op == token.GTR
+		}
+		if countInstr(f, produces) == 0 {
+			continue
+		}
+		c.cut(R, "nonempty:"+f.Name()+" frames a resolved range only when it is not empty", &Cut{Fn: f, NoInline: true,
+			Start: func(in ssa.Instruction) bool { return in == ssa.Instruction(cl) }, Target: produces, Edge: nonEmptyEdge},
+			"a zero-length CRYPTO frame at the end of a datagram makes the flight validator reject a plan that covers the ClientHello completely (EOF from the frame reader); the sibling builder skips empty ranges")
+	}
+	c.Floor(R, "call sites of QUICCryptoRange.resolve", n, 2)
+}
+
+// C17.17: nothing is sent for a connection that ends because of a stateless reset, or because the attempt is
+// abandoned for another version: in handleCloseError, from the true edge of errors.As(e, &statelessResetErr) and of
+// errors.As(e, &recreateErr), neither sendConnectionClose nor ReplaceWithClosed is reachable (the connection IDs are
+// removed at once). Both errors reach handleCloseError as ordinary return values of the packet handlers, i.e. in a
+// closeError that is not marked immediate.
+func c17NoCloseFrameAfterStatelessReset(c *Ctx) {
+	const R = "C17.17"
+	f := c.fn("", "Conn", "handleCloseError")
+	scc := c.obj("", "Conn", "sendConnectionClose")
+	rwc := c.obj("", "connIDGenerator", "ReplaceWithClosed")
+	target := func(in ssa.Instruction) bool { return CallsTo(scc)(in) || CallsTo(rwc)(in) }
+	c.Floor(R, "CONNECTION_CLOSE / closed-stand-in sites in handleCloseError", countInstr(f, target), 2)
+	for _, tn := range []string{"StatelessResetError", "errCloseForRecreating"} {
+		want := c.named("", tn)
+		var starts, tests []*ssa.BasicBlock
+		for _, b := range f.Blocks {
+			t := errorsAsTest(b)
+			if t == nil {
+				continue
+			}
+			if types.Identical(t, types.Unalias(want.Type())) {
+				tests = append(tests, b)
+			}
+		}
+		// the classification is the test that no other test can reach (later tests of the same error, e.g. around the
+		// qlog event, repeat it)
+		for _, b := range tests {
+			first := true
+			for _, o := range tests {
+				if o != b && instrReaches(o.Instrs[len(o.Instrs)-1], b.Instrs[len(b.Instrs)-1]) {
+					first = false
+				}
+			}
+			if first {
+				starts = append(starts, b.Succs[0])
+			}
+		}
+		c.Floor(R, "errors.As tests for "+tn+" in handleCloseError", len(starts), 1)
+		if len(starts) == 0 {
+			continue
+		}
+		c.cut(R, "silent:no CONNECTION_CLOSE and no closed stand-in once the cause is "+tn, &Cut{Fn: f, StartBlocks: starts, Target: target, TrackFlags: true, NoInline: true},
+			"RFC 9000 §10.3.1: an endpoint that detects a stateless reset sends nothing further; an attempt abandoned after Version Negotiation must not leave a timer behind that later deletes the routing entry of its successor (same, possibly empty, connection ID)")
+	}
+}
+
+// C17.18: a closed single-use transport stops listening when its last routing entry disappears, whichever way it
+// disappears: every function that deletes from packetHandlerMap.handlers tests len(handlers) == 0 afterwards and
+// reaches maybeStopListening on that edge (before this, only the expiry of a closed stand-in did; idle timeouts,
+// stateless resets and destroyed connections go through Remove).
+func c17LastHandlerStopsListening(c *Ctx) {
+	const R = "C17.18"
+	hf := c.fld("", "Transport", "handlers")
+	msl := c.obj("", "Transport", "maybeStopListening")
+	n := 0
+	for _, w := range c.P.Writers(hf) {
+		cl, ok := w.Instr.(*ssa.Call)
+		if !ok || builtinName(&cl.Call) != "delete" {
+			continue
+		}
+		n++
+		f := w.Fn
+		nonEmpty := EdgeRel(Rel{Op: token.EQL, X: LenOf(Load(hf)), Y: ConstI(0)}, true)
+		c.cut(R, "last:"+rootFn(f).Name()+" stops a closed single-use transport when it removes the last handler", &Cut{Fn: f, NoInline: true,
+			Start: func(in ssa.Instruction) bool { return in == w.Instr }, Target: isReturn, Barrier: CallsTo(msl), Edge: nonEmpty},
+			"after Listener.Close, the read loop (goroutine, send-queue goroutine and — for ListenAddr — the UDP socket) is released only when the handler map is seen empty")
+	}
+	c.Floor(R, "deletions from the handler map", n, 2)
+}
+
+// errorsAsTest: block b ends in `if errors.As(e, &x)` with x of type *T; returns T (unaliased), else nil.
+func errorsAsTest(b *ssa.BasicBlock) types.Type {
+	if len(b.Instrs) == 0 {
+		return nil
+	}
+	ifi, ok := b.Instrs[len(b.Instrs)-1].(*ssa.If)
+	if !ok {
+		return nil
+	}
+	cl, ok := ifi.Cond.(*ssa.Call)
+	if !ok || cl.Call.StaticCallee() == nil || cl.Call.StaticCallee().Name() != "As" || cl.Call.StaticCallee().Pkg == nil || cl.Call.StaticCallee().Pkg.Pkg.Path() != "errors" || len(cl.Call.Args) != 2 {
+		return nil
+	}
+	tgt := cl.Call.Args[1]
+	if mi, ok := tgt.(*ssa.MakeInterface); ok {
+		tgt = mi.X
+	}
+	pt, ok := tgt.Type().Underlying().(*types.Pointer)
+	if !ok {
+		return nil
+	}
+	pt2, ok := pt.Elem().Underlying().(*types.Pointer)
+	if !ok {
+		return nil
+	}
+	return types.Unalias(pt2.Elem())
+}
+
+// C15.8 / C17.19: a channel that is signalled with a non-blocking send (`select { case ch <- x: default: }`) is a
+// one-slot token: it must be created with capacity ≥ 1, or a signal sent while the waiter is between its check
+// (under the mutex) and its receive is dropped and the waiter sleeps although its condition holds.
+func nonBlockingSignalsAreBuffered(c *Ctx, R string, only func(*types.Var) bool, floor int) {
+	type site struct {
+		fld *types.Var
+		in  ssa.Instruction
+	}
+	sig := map[*types.Var]ssa.Instruction{}
+	var order []*types.Var
+	for _, f := range c.P.ScopeFuncs() {
+		eachInstr(f, func(in ssa.Instruction) {
+			sel, ok := in.(*ssa.Select)
+			if !ok || sel.Blocking {
+				return
+			}
+			for _, st := range sel.States {
+				if st.Dir != types.SendOnly {
+					continue
+				}
+				fl, _ := loadedField(stripConv(st.Chan))
+				if fl == nil || !only(fl) {
+					continue
+				}
+				if _, ok := sig[fl]; !ok {
+					sig[fl] = in
+					order = append(order, fl)
+				}
+			}
+		})
+	}
+	sort.Slice(order, func(i, j int) bool { return fieldKey(order[i]) < fieldKey(order[j]) })
+	n := 0
+	for _, fl := range order {
+		for _, w := range c.P.Writers(fl) {
+			if w.Kind != "store" {
+				continue
+			}
+			mk, ok := stripConv(w.Val).(*ssa.MakeChan)
+			if !ok {
+				continue // handed in from elsewhere (parameter): its creation site is the writer of that other field / local
+			}
+			n++
+			k, isC := mk.Size.(*ssa.Const)
+			okv := isC && k.Value != nil && k.Int64() >= 1
+			c.Check(okv, R, "buffered:"+fieldKey(fl)+" is created with room for the token in "+funcName(rootFn(w.Fn)), c.P.InstrPos(w.Instr),
+				"signalled by a non-blocking send at "+c.P.InstrPos(sig[fl])+": an unbuffered channel drops the signal unless the waiter is already parked")
+		}
+	}
+	c.Floor(R, "creations of channels signalled with a non-blocking send", n, floor)
+}
+
+func fieldKey(f *types.Var) string {
+	if f.Pkg() != nil {
+		return f.Pkg().Name() + "." + f.Name()
+	}
+	return f.Name()
+}
+
+func c15SignalChannelsBuffered(c *Ctx) {
+	nonBlockingSignalsAreBuffered(c, "C15.8", func(f *types.Var) bool {
+		return f.Pkg() != nil && f.Pkg().Name() == "quic" && (f.Name() == "newStreamChan" || f.Name() == "openQueue")
+	}, 1)
+}
+
+func c17SignalChannelsBuffered(c *Ctx) {
+	nonBlockingSignalsAreBuffered(c, "C17.19", func(f *types.Var) bool { return f.Pkg() != nil }, 20)
+}
+
+// C15.9: a caller that is turned away (OpenStream) or queued (OpenStreamSync) for lack of stream credit reports the
+// limit: maybeSendBlockedFrame is called on every such path, unconditionally — it decides itself (blockedSent)
+// whether a STREAMS_BLOCKED frame for the current limit is still owed.
+func c15BlockedFrameForEveryBlockedOpen(c *Ctx) {
+	const R = "C15.9"
+	oq := c.fld("", "outgoingStreamsMap", "openQueue")
+	msb := c.obj("", "outgoingStreamsMap", "maybeSendBlockedFrame")
+	n := 0
+	for _, f := range c.fns("", "outgoingStreamsMap", "OpenStreamSync") {
+		queued := func(in ssa.Instruction) bool {
+			st, ok := in.(*ssa.Store)
+			if !ok || fieldOfAddress(st.Addr) != oq {
+				return false
+			}
+			cl, ok := st.Val.(*ssa.Call)
+			return ok && builtinName(&cl.Call) == "append"
+		}
+		waits := func(in ssa.Instruction) bool { s, ok := in.(*ssa.Select); return ok && s.Blocking }
+		if countInstr(f, queued) == 0 {
+			continue
+		}
+		n++
+		c.cut(R, "queued:"+funcName(f)+" reports the limit before it waits", &Cut{Fn: f, Start: queued, Target: waits, Barrier: CallsTo(msb), NoInline: true},
+			"a caller queued while the credit of a fresh MAX_STREAMS is already spoken for by earlier waiters blocks at the new limit without STREAMS_BLOCKED ever being sent for it")
+	}
+	c.Floor(R, "instantiations of OpenStreamSync that queue a waiter", n, 1)
+	sle := c.named("", "StreamLimitReachedError")
+	m := 0
+	for _, f := range c.fns("", "outgoingStreamsMap", "OpenStream") {
+		refused := func(in ssa.Instruction) bool {
+			r, ok := in.(*ssa.Return)
+			if !ok || len(r.Results) != 2 {
+				return false
+			}
+			mi, ok := retResults(r)[1].(*ssa.MakeInterface)
+			if !ok {
+				return false
+			}
+			pt, ok := mi.X.Type().(*types.Pointer)
+			return ok && types.Identical(types.Unalias(pt.Elem()), types.Unalias(sle.Type()))
+		}
+		if countInstr(f, refused) == 0 {
+			continue
+		}
+		m++
+		c.cut(R, "refused:"+funcName(f)+" reports the limit when it refuses", &Cut{Fn: f, Target: refused, Barrier: CallsTo(msb), NoInline: true},
+			"OpenStream returning StreamLimitReachedError without STREAMS_BLOCKED leaves the peer unaware that the limit is being hit")
+	}
+	c.Floor(R, "instantiations of OpenStream that refuse", m, 1)
 }
